@@ -34,7 +34,8 @@ Inductive stage :=
 | GResample (order old new : nat)
 | GCycle
 | GZcross (h : nat)                        (* zcross with hysteresis h on the counting source (first_sign = 0) *)
-| GBatched (n : nat).
+| GBatched (n : nat)
+| GResampleTV (order old new : nat).       (* resample with old/new given as a Stream (source 1) *)
 
 (* AudioLazy's rint(.5*(order+1)) (half away from zero) and int(.5*(order+1)) *)
 Definition rs_n0 (order : nat) : nat := (order + 2) / 2.
@@ -63,6 +64,8 @@ Definition smach (g : stage) : machine nat nat :=
   | GCycle => mcycle
   | GZcross h => mzcross (fun x => h <? x)
   | GBatched n => omap (fun _ => 0) (mbatched n)
+  | GResampleTV order old new =>
+      mresample_tv 0 (rs_n0 order) (rs_idx0 order new) (rs_thr order new) (rs_stp old) (rs_one new)
   end.
 
 (* a pipeline: the first stage reads the sources, every later stage reads the previous one *)
